@@ -1680,6 +1680,10 @@ func (h *RequestHeader) SetCookie(key, value string) {
 	h.collectCookies()
 	h.bufK = initHeaderValueString(h.bufK, key)
 	h.bufV = initHeaderValueString(h.bufV, value)
+	// ';' separates the cookies of a Cookie header: left as it is, a value like
+	// "v; admin=1" would be seen by the server as an additional cookie.
+	h.bufK = removeSemicolons(h.bufK)
+	h.bufV = removeSemicolons(h.bufV)
 	h.cookies = setArgBytes(h.cookies, h.bufK, h.bufV, argsHasValue)
 }
 
